@@ -139,6 +139,8 @@ def reset_events(lf, init, facts, reset_fns):
                             resets.setdefault(i, set()).add(f)
                         elif last_seg(path) in ("take",) and "mem" in path:
                             resets.setdefault(i, set()).add(f)
+                        elif last_seg(path) == "drain" and len(args) == 2 and look(args[1])[0] == "agg" and look(args[1])[1].startswith("std::ops::RangeFull"):
+                            resets.setdefault(i, set()).add(f)      # drain(..) leaves the vector empty (whatever is done with the items)
                         else:
                             dirty.setdefault(i, set()).add(f)
     return resets, dirty
@@ -308,6 +310,18 @@ def bounded_buffer_reads(ctx, rule):
                         for (t, c, _b) in lf.conds[:]:
                             if t[0] == "bin" and t[1] == "Eq" and truth(c) is True and bsz in (const_of(t[2]), const_of(t[3])) and any(look(z)[0] == "arg" for z in (t[2], t[3])):
                                 ok = True
+                        if not ok:
+                            # ... however that was spelled (`end - start == BUFFER_SIZE` under `start == 0`, a helper): linear arithmetic
+                            from ..lin import Lin, State
+                            from ..panics import Tr
+                            st = State()
+                            tr = Tr(ctx.facts, fn, st)
+                            for e2 in lf.events:
+                                if e2[0] == "cond":
+                                    tr.assume_cond(e2[3], e2[4])
+                                if e2 is e:
+                                    break
+                            ok = fn.nargs >= 3 and st.entails_eq(tr.lin(("arg", 3)) - Lin.const(bsz))
                     if not ok and last_seg(e[3]) in ("index", "index_mut", "get", "get_mut") and i == 0 and len(args) == 2:
                         r = look(args[1])
                         ok = r[0] == "agg" and (r[1].startswith("std::ops::Range::") or r[1].startswith("std::ops::RangeTo") or r[1].startswith("std::ops::RangeInclusive") or r[1] in ("std::ops::Range", "std::ops::RangeTo", "std::ops::RangeInclusive", "std::ops::RangeToInclusive"))
